@@ -35,6 +35,7 @@ ORDER = {'monotonic_inc': 1, 'monotonic_dec': 1, 'convex': 2, 'concave': 2}
 NEG = {'monotonic_inc': True, 'monotonic_dec': False, 'convex': True, 'concave': False}   # True: negative differences violate
 CLAM = 1e9
 TOL_REL = Fraction(1, 10 ** 12)
+S16 = 'S16-tensor-marginal-extrapolation'
 
 
 # ----------------------------------------------------------------------------- helpers
@@ -442,7 +443,9 @@ def run(res):
     direct_probe(res, rng, res.tier)
     c1, m1 = fn_cases(res, rng, res.tier)
     c2, m2 = term_cases(res, rng, res.tier)
-    cases, meta = c1 + c2, m1 + m2
+    c3, m3 = fit_cases(res, rng, res.tier)
+    s16_witness(res)
+    cases, meta = c1 + c2 + c3, m1 + m2 + m3
     with common.CaseDir(PROP) as cd:
         failing, errors = common.run_bool_cases(cd, HEADER, cases, 'check_case', shard=100)
     for name, out in errors:
@@ -462,3 +465,339 @@ def run(res):
 
 def replay(res, rp):
     run(res)
+
+
+# ----------------------------------------------------------------------------- (b) converged constrained fits
+FAMILIES = ['LinearGAM', 'PoissonGAM', 'LogisticGAM', 'GammaGAM']
+_CAPTURE = [None]
+
+
+def capture_class():
+    """A user CallBack whose on_loop_start/on_loop_end name locals of GAM._pirls (the wrapper in pygam/callbacks.py passes
+    exactly the named ones; the methods must not have other local variables)."""
+    if _CAPTURE[0] is None:
+        from pygam.callbacks import CallBack, validate_callback
+
+        @validate_callback
+        class C05Capture(CallBack):
+            def __init__(self):
+                super(C05Capture, self).__init__(name='c05capture')
+
+            def on_loop_start(self, gam, C, P, S):
+                return dict(at='start', coef_in=np.array(gam.coef_, dtype=float).copy(), C=dense(C).copy(),
+                            l2_after=float(gam._constraint_l2), P=dense(P).copy(), S=dense(S).copy())
+
+            def on_loop_end(self, gam, coef_new, WB, pseudo_data):
+                return dict(at='end', coef_new=np.array(coef_new, dtype=float).copy(), WB=dense(WB).copy(),
+                            pd=np.array(pseudo_data, dtype=float).ravel().copy(), l2_end=float(gam._constraint_l2))
+        _CAPTURE[0] = C05Capture
+    return _CAPTURE[0]
+
+
+def contradicting_signal(shape, u):
+    """u in [-1, 1]; a signal with the OPPOSITE shape (strictly), amplitude ~1"""
+    return {'monotonic_inc': -u, 'monotonic_dec': u, 'convex': 0.5 - u * u, 'concave': u * u - 0.5}[shape]
+
+
+def gen_fit_spec(rng, idx):
+    fam = FAMILIES[idx % 4]
+    layout = ['single', 'single', 'two', 'tensor'][(idx // 4) % 4]
+    order = 1 + (idx // 16) % 4
+    spec = dict(family=fam, layout=layout, n=rng.choice([60, 100, 160]), seed=rng.randrange(1 << 30),
+                lam=float(10 ** rng.uniform(-3, 3)), strength=rng.choice([0.8, 1.5, 3.0]),
+                xscale=float(10 ** rng.uniform(-1, 2)), xoff=float(rng.uniform(-5, 5)), noise=rng.choice([0.05, 0.3]))
+    if layout == 'tensor':
+        o1, o2 = order, rng.randint(1, 3)
+        n1, n2 = rng.randint(max(4, o1 + 1), 7), rng.randint(max(4, o2 + 1), 6)
+        c1 = rng.choice(SHAPES)
+        c2 = rng.choice(SHAPES + [None, None])
+        spec.update(margins=[dict(n_splines=n1, spline_order=o1, constraints=c1), dict(n_splines=n2, spline_order=o2, constraints=c2)])
+    else:
+        ns = rng.randint(max(4, order + 1), 25)
+        cons = [rng.choice(SHAPES)]
+        if rng.random() < 0.3:   # a combination: monotone + convex/concave
+            cons = [rng.choice(SHAPES[:2]), rng.choice(SHAPES[2:])]
+        spec.update(n_splines=ns, spline_order=order, constraints=cons)
+    return spec
+
+
+def build_fit(spec):
+    import pygam
+    from pygam import s, te
+    rs = np.random.RandomState(spec['seed'])
+    n = spec['n']
+    nfeat = 1 if spec['layout'] == 'single' else 2
+    U = rs.rand(n, nfeat) * 2 - 1
+    U[0, :] = -1.0
+    U[1, :] = 1.0
+    X = spec['xoff'] + spec['xscale'] * U
+    if spec['layout'] == 'tensor':
+        m1, m2 = spec['margins']
+        f = contradicting_signal(m1['constraints'], U[:, 0])
+        if m2['constraints']:
+            f = f + contradicting_signal(m2['constraints'], U[:, 1])
+        else:
+            f = f + 0.5 * np.sin(3 * U[:, 1])
+        terms = te(s(0, n_splines=m1['n_splines'], spline_order=m1['spline_order'], constraints=m1['constraints']),
+                   s(1, n_splines=m2['n_splines'], spline_order=m2['spline_order'], constraints=m2['constraints']), lam=spec['lam'])
+    else:
+        f = sum(contradicting_signal(c, U[:, 0]) for c in spec['constraints'])
+        terms = s(0, n_splines=spec['n_splines'], spline_order=spec['spline_order'], constraints=list(spec['constraints']), lam=spec['lam'])
+        if spec['layout'] == 'two':
+            f = f + 0.5 * np.sin(3 * U[:, 1])
+            terms = terms + s(1, n_splines=6, lam=spec['lam'])
+    f = spec['strength'] * f
+    fam = spec['family']
+    if fam == 'LinearGAM':
+        y = f + spec['noise'] * rs.randn(n)
+    elif fam == 'PoissonGAM':
+        y = rs.poisson(np.exp(f)).astype(float)
+    elif fam == 'LogisticGAM':
+        y = (rs.rand(n) < 1.0 / (1.0 + np.exp(-2 * f))).astype(float)
+    else:
+        y = rs.gamma(4.0, np.exp(f) / 4.0) + 1e-3
+    gam = getattr(pygam, fam)(terms)
+    return gam, X, y, U
+
+
+def fr_vec(v):
+    return [frac_of_float(x) for x in np.asarray(v, dtype=float).ravel()]
+
+
+def fr_matvec(M, fv):
+    out = []
+    for row in np.asarray(M, dtype=float):
+        s_ = Fraction(0)
+        for x, b in zip(row, fv):
+            if x != 0.0 and b != 0:
+                s_ += frac_of_float(x) * b
+        out.append(s_)
+    return out
+
+
+def fr_dot(a, b):
+    return sum((x * y for x, y in zip(a, b)), Fraction(0))
+
+
+def constraint_lines(terms, coef_mask, coef_val):
+    """yield (term index, marginal index or None, constraint name, line of coef_mask, line of coef_val) for every constrained
+    coefficient line of the model (independent of the Coq model: numpy reshape / moveaxis)"""
+    pos = 0
+    for ti, t in enumerate(terms):
+        n = int(t.n_coefs)
+        bm, bv = np.asarray(coef_mask[pos:pos + n], dtype=float), np.asarray(coef_val[pos:pos + n], dtype=float)
+        pos += n
+        if t.isintercept:
+            continue
+        if t.istensor:
+            dims = [int(m.n_coefs) for m in t._terms]
+            for i, m in enumerate(t._terms):
+                lm = np.moveaxis(bm.reshape(dims), i, -1).reshape(-1, dims[i])
+                lv = np.moveaxis(bv.reshape(dims), i, -1).reshape(-1, dims[i])
+                for c in cons_of(m):
+                    if c in SHAPES:
+                        for a, b in zip(lm, lv):
+                            yield ti, i, c, a, b
+        else:
+            for c in cons_of(t):
+                if c in SHAPES:
+                    yield ti, None, c, bm, bv
+
+
+def shape_ok(vals, shape, tol):
+    """vals: function values along a line of a uniform grid; returns (ok, worst) for the requested shape up to tol"""
+    d = np.diff(vals, n=ORDER[shape])
+    worst = float(-d.min()) if NEG[shape] else float(d.max())
+    return worst <= tol, max(worst, 0.0)
+
+
+def fit_cases(res, rng, tier):
+    nfits = 64 if tier == 'quick' else 640
+    Capture = capture_class()
+    cases, meta = [], []
+    ratios = []
+    for idx in range(nfits):
+        spec = gen_fit_spec(rng, idx)
+        tag = '%s/%s/order%d' % (spec['family'], spec['layout'], spec.get('spline_order', spec.get('margins', [{}])[0].get('spline_order', 0)))
+        try:
+            gam, X, y, U = build_fit(spec)
+            cb = Capture()
+            gam.callbacks = list(gam.callbacks) + [cb]      # (LinearGAM's constructor does not forward callbacks=)
+            l2_start = float(gam._constraint_l2)
+            import contextlib
+            import io
+            with contextlib.redirect_stdout(io.StringIO()):
+                gam.fit(X, y)
+        except Exception as e:
+            res.count('fit:error:%s' % type(e).__name__)
+            res.notes.append('fit raised %s: %s for %r' % (type(e).__name__, str(e)[:100], spec)) if len(res.notes) < 5 else None
+            continue
+        logs = gam.logs_.get('c05capture', [])
+        starts = [r for r in logs if r['at'] == 'start']
+        ends = [r for r in logs if r['at'] == 'end']
+        K = len(ends)
+        converged = K > 0 and len(starts) == K and gam.logs_['diffs'][-1] < gam.tol
+        res.count('fit:%s:%s' % (tag, 'converged' if converged else 'not-converged'))
+        rec = dict(spec=spec, iterations=K, converged=bool(converged), constraint_l2_final=float(gam._constraint_l2),
+                   constraint_l2_escalated=bool(gam._constraint_l2 != l2_start))
+        if gam._constraint_l2 != l2_start:
+            res.count('fit:constraint_l2-escalated-by-_cholesky(known quirk S14, not alarmed)')
+        terms = list(gam.terms._terms)
+        if not gam.terms.hasconstraint or not starts:
+            res.violations.append(dict(what='constrained model: hasconstraint is False or C was never built in _pirls', finding=None,
+                                       input=spec, observed='no captured C', expected='C rebuilt every iteration'))
+            continue
+        # --- (b1) captured C at iteration k == model C(coefficients entering iteration k) [first 2 and last 2 iterations]
+        l2_used = [l2_start] + [s_['l2_after'] for s_ in starts[:-1]]
+        for k in sorted(set([0, 1, K - 2, K - 1]) & set(range(K))):
+            cin = starts[k]['coef_in']
+            if k > 0 and not np.array_equal(cin, ends[k - 1]['coef_new']):
+                res.violations.append(dict(what='coefficients entering iteration %d differ from coef_new of iteration %d' % (k, k - 1),
+                                           finding=None, input=spec, observed='gam.coef_ != previous coef_new', expected='equal'))
+            if ambiguous_for_terms(terms, cin):
+                res.count('fit:iteration-skipped-rounding-ambiguous-second-difference')
+                continue
+            cases.append('(KTerms %s %s %s %s %s true %s)' % (
+                coq_list([term_coq(t) for t in terms]), vec_coq(cin), dylit(gam._constraint_lam), dylit(l2_used[k]),
+                qlit(TOL_REL), mat_coq(starts[k]['C'])))
+            meta.append(dict(target='captured C in _pirls', spec=spec, iteration=k, of=K, constraint_l2_used=l2_used[k]))
+        if not converged:
+            res.case(('fit', repr(spec)), nontrivial=False)
+            continue
+        # --- (b2) the proved step bound on the last iteration, in exact rational arithmetic
+        st, en = starts[-1], ends[-1]
+        bn, bi = en['coef_new'], st['coef_in']
+        fb = fr_vec(bn)
+        c = frac_of_float(gam._constraint_lam)
+        WBb = fr_matvec(en['WB'], fb)
+        fit_resid = fr_dot(WBb, [p - q for p, q in zip(fr_vec(en['pd']), WBb)])      # <W B bn, W z - W B bn>
+        quadSP = fr_dot(fb, fr_matvec(st['S'] + st['P'], fb))
+        quadC = fr_dot(fb, fr_matvec(st['C'], fb))
+        esc = frac_of_float(st['l2_after']) - frac_of_float(l2_used[-1])              # ridge added by _cholesky's escalation
+        quadEsc = esc * fr_dot(fb, fb)
+        V = Fraction(0)
+        nviol = 0
+        for ti, mi, cname, lm, lv in constraint_lines(terms, bi, bn):
+            s_, k_ = viol_sq_sum(lm, lv, cname)
+            V += c * s_
+            nviol += k_
+        absb = [abs(x) for x in fb]
+        scale = fr_dot([abs(x) for x in WBb], [abs(p) + abs(q) for p, q in zip(fr_vec(en['pd']), WBb)]) + \
+            fr_dot(absb, fr_matvec(np.abs(st['S'] + st['P'] + st['C']), absb)) + abs(quadEsc)
+        ident = fit_resid - quadSP - quadC - quadEsc          # = 0 for an exact solve (step_identity)
+        ratio = float(abs(ident) / scale) if scale else 0.0
+        ratios.append(ratio)
+        solver_tol = Fraction(1, 10 ** 7) * scale              # backward-error allowance of the float SVD solve
+        bound_rhs = fit_resid - quadSP - quadEsc
+        ok_lower = V <= quadC + TOL_REL * scale               # term_quad_lower / tensor analogue: the ridge only adds
+        ok_bound = V <= bound_rhs + solver_tol and quadSP >= 0 and bound_rhs <= abs(fit_resid) + solver_tol
+        rec.update(V=float(V), quadC=float(quadC), fit_resid=float(fit_resid), quadSP=float(quadSP), quadEsc=float(quadEsc),
+                   identity_residual_over_scale=ratio, violating_positions=nviol)
+        if not (ok_lower and ok_bound):
+            res.violations.append(dict(what='converged constrained fit violates the proved soft-constraint bound '
+                                            'c*sum_viol(delta beta)^2 <= <B beta, W^2(z - B beta)> - beta\'(S+P)beta (C05_step_bound)',
+                                       finding=None, input=spec, observed=dict(V=float(V), quadC=float(quadC), rhs=float(bound_rhs),
+                                                                               identity_residual_over_scale=ratio),
+                                       expected='V <= quadC and V <= rhs + 1e-7*scale'))
+        # --- (b3) function shape on grids, tolerance derived from the bound
+        rb = max(bound_rhs + solver_tol, Fraction(0))
+        vb1 = math.sqrt(float(rb / c))                         # every violating |difference of coef_new| at a position masked in coef_in
+        dmax = float(np.abs(bn - bi).max())
+        shape_bad = check_function_shape(res, gam, spec, X, terms, vb1, dmax)
+        rec['shape_violations'] = shape_bad
+        res.extra.setdefault('fits', []).append(rec) if len(res.extra.get('fits', [])) < 400 else None
+        res.case(('fit', repr(spec)), sample=dict(fit=spec, iterations=K, V=float(V), bound=float(bound_rhs)) if idx in (0, 7) else None,
+                 nontrivial=nviol > 0 or V == 0)
+        res.count('fit:violating-positions-at-convergence:%s' % ('some' if nviol else 'none'))
+    res.extra['identity_residual_over_scale_max'] = max(ratios) if ratios else None
+    return cases, meta
+
+
+def s16_witness(res):
+    """deterministic witness of candidate finding S16: a monotonic_inc marginal of a tensor term whose converged fit has
+    increasing coefficients along that axis (to 1e-8) but whose fitted surface DEcreases in that variable once the OTHER
+    variable is extrapolated beyond its knot range (linearly continued basis functions become negative)."""
+    import contextlib
+    import io
+    from pygam import LinearGAM, s, te
+    g = np.linspace(-1, 1, 15)
+    X = np.array([(a, b) for a in g for b in g])
+    y = np.where(X[:, 1] > 0.3, 3 * X[:, 0], 0.0)
+    with contextlib.redirect_stdout(io.StringIO()):
+        gam = LinearGAM(te(s(0, n_splines=6, constraints='monotonic_inc'), s(1, n_splines=6), lam=0.01)).fit(X, y)
+    conv = gam.logs_['diffs'][-1] < gam.tol
+    coef = gam.coef_[:-1].reshape(6, 6)
+    cmin = float(np.diff(coef, axis=0).min())
+    f = np.asarray(gam.partial_dependence(term=0, X=np.column_stack([g, np.full(15, -2.0)]))).ravel()
+    drop = float(f[0] - f[-1])
+    res.extra['S16_witness'] = dict(converged=bool(conv), min_coef_difference_along_axis0=cmin, f_at_x1_minus2=[round(float(x), 4) for x in f])
+    if conv and cmin > -1e-6 and drop > 1e-3:
+        res.violations.append(dict(what='tensor marginal constraint not honoured beyond the domain of the other marginal', finding=S16,
+                                   input=dict(witness='s16_witness: 15x15 grid on [-1,1]^2, y = 3*x0 if x1 > 0.3 else 0, '
+                                                      "LinearGAM(te(s(0,6,monotonic_inc), s(1,6), lam=0.01))"),
+                                   observed=dict(f_x0_minus1_minus_f_x0_plus1_at_x1_minus2=drop, min_coef_difference=cmin),
+                                   expected='f(., x1=-2) non-decreasing'))
+    res.case(('S16-witness',))
+
+
+def check_function_shape(res, gam, spec, X, terms, vb1, dmax):
+    """the fitted partial function of every constrained term on a fine uniform grid inside the knot range and (spline order >= 1)
+    on a grid extending 50% beyond it on both sides.  Tolerance: a violating d-th coefficient difference is at most
+    v = sqrt(bound/c) + 2^d*|coef_new - coef_in|_inf, and a B-spline with d-th coefficient differences >= -v on knots of spacing h has
+    d-th grid differences >= -d*v*max(1, delta/h)^d for grid spacing delta; plus 1e-9*(1+max|f|) for float evaluation."""
+    bad = 0
+    G = 240
+    for ti, t in enumerate(terms):
+        if t.isintercept or not t.hasconstraint:
+            continue
+        margins = list(t._terms) if t.istensor else [t]
+        feats = [m.feature for m in margins]
+        ek = [np.asarray(m.edge_knots_, dtype=float) for m in margins]
+        regions = ['inside', 'extrapolated'] + (['other-extrapolated'] if t.istensor else [])
+        for region in regions:
+            for ax, m in enumerate(margins):
+                for cname in cons_of(m):
+                    if cname not in SHAPES or m.spline_order < 1:
+                        continue
+                    d = ORDER[cname]
+                    lo, hi = ek[ax]
+                    span = hi - lo
+                    if region == 'extrapolated':
+                        lo, hi = lo - 0.5 * span, hi + 0.5 * span
+                    grid = np.linspace(lo, hi, G)
+                    h = span / max(int(m.n_coefs) - int(m.spline_order), 1)
+                    delta = (hi - lo) / (G - 1)
+                    v = vb1 + (2 ** d) * dmax
+                    # other marginals (tensor): fixed positions inside their own knot range, or (region other-extrapolated) beyond it
+                    others = []
+                    for j in range(len(margins)):
+                        if j != ax:
+                            a_, b_ = ek[j]
+                            if region == 'other-extrapolated':
+                                others.append(np.array([a_ - (b_ - a_), a_ - 0.5 * (b_ - a_), b_ + 0.5 * (b_ - a_), b_ + (b_ - a_)]))
+                            else:
+                                others.append(np.linspace(a_, b_, 7))
+                    fixed_list = [()] if not others else [(o,) for o in others[0]]
+                    for fixed in fixed_list:
+                        XX = np.zeros((G, X.shape[1]))
+                        XX[:, feats[ax]] = grid
+                        oi = 0
+                        for j in range(len(margins)):
+                            if j != ax:
+                                XX[:, feats[j]] = fixed[oi]
+                                oi += 1
+                        f = np.asarray(gam.partial_dependence(term=ti, X=XX)).ravel()
+                        tol = d * v * max(1.0, delta / h) ** d + 1e-9 * (1 + float(np.abs(f).max()))
+                        if region == 'other-extrapolated':   # linearly continued basis functions can be as large as 1 + distance/h
+                            tol *= 1 + 2 * int(margins[1 - ax].n_coefs) if len(margins) == 2 else 50
+                        ok, worst = shape_ok(f, cname, tol)
+                        res.count('shape:%s:%s' % (region, 'ok' if ok else 'VIOLATED'))
+                        if not ok:
+                            bad += 1
+                            res.violations.append(dict(
+                                what='fitted function of a %s-constrained %s is not %s on the %s grid beyond the tolerance derived from '
+                                     'the proved bound' % (cname, 'tensor marginal' if t.istensor else 'spline term', cname, region),
+                                finding=S16 if (t.istensor and region == 'other-extrapolated') else None,
+                                input=dict(spec=spec, term=ti, marginal=ax, region=region, fixed_other=[float(x) for x in fixed]),
+                                observed=dict(worst_difference=worst), expected=dict(tolerance=tol)))
+    return bad
